@@ -118,6 +118,9 @@ class CoapWorld:
             return Code.CHANGED, acc.post_pair_setup(payload)
         if path == "0":
             return Code.CHANGED, b""
+        if outcome["kind"] == "future":  # the accessory's send counter is ahead (replies the controller never saw)
+            acc.send_ctr += outcome.get("skip", 1)
+            self.ctx.probe("coap_future_counter_reply")
         kind, sealed = acc.post_secure(payload)
         if kind == "notfound":
             return Code.NOT_FOUND, b""
